@@ -11,6 +11,7 @@ MAY_PANIC = [
     "Vec::drain", "Vec::split_off", "Vec::truncate_front", "slice::chunks", "slice::windows", "slice::swap", "slice::rotate",
     "Iterator::step_by", "RefCell::borrow", "String::insert", "String::remove", "String::drain", "char::from_digit",
     "Duration::", "process::exit", "process::abort", "unreachable_unchecked", "mem::transmute", "mem::zeroed", "ptr::read", "ptr::write",
+    "Iterator::sum", "Iterator::product", "num::pow", "num::abs", "num::neg", "ops::Neg::neg", "ops::Div::div", "ops::Rem::rem",
     "from_utf8_unchecked", "get_unchecked", "Vec::from_raw_parts", "Vec::set_len", "alloc::alloc",
 ]
 
@@ -52,7 +53,7 @@ NO_PANIC += ["std::option::Option::unwrap_or", "std::result::Result::unwrap_or",
              "core::slice::get", "std::option::Option::filter", "std::option::Option::zip", "std::option::Option::or", "std::option::Option::xor"]
 NO_PANIC += ["std::iter::Iterator::peekable", "std::iter::Peekable::peek", "std::iter::Peekable::next", "std::iter::Peekable::", "std::option::Option::copied",
              "std::iter::Iterator::copied", "std::iter::Iterator::by_ref", "std::iter::Iterator::count", "std::iter::Iterator::fold", "std::iter::Iterator::for_each",
-             "std::iter::Iterator::last", "std::iter::Iterator::nth", "std::iter::Iterator::sum", "std::iter::Iterator::take_while", "std::iter::Iterator::skip_while",
+             "std::iter::Iterator::last", "std::iter::Iterator::nth", "std::iter::Iterator::take_while", "std::iter::Iterator::skip_while",
              "std::iter::Iterator::filter_map", "std::iter::Iterator::find_map", "std::iter::Iterator::rposition", "std::iter::Iterator::max", "std::iter::Iterator::min",
              "std::iter::Iterator::peekable", "std::iter::Iterator::fuse", "std::iter::Iterator::flatten", "std::iter::Iterator::chain", "std::iter::once", "std::iter::empty",
              "std::iter::DoubleEndedIterator::", "std::iter::ExactSizeIterator::len", "std::ops::FnMut::call_mut", "std::ops::FnOnce::call_once"]
@@ -61,6 +62,51 @@ NO_PANIC += ["std::string::String::as_str", "std::str::traits::eq", "std::vec::V
 NO_PANIC += ["clap::App::new", "clap::App::version", "clap::App::about", "clap::App::arg", "clap::App::get_matches", "clap::Arg::with_name",
              "clap::Arg::index", "clap::Arg::required", "clap::ArgMatches::value_of", "std::fs::File::open", "std::io::Read::read_to_end",
              "std::io::_print"]
+
+# Further std functions without a panicking path (std documentation: no "Panics" section; allocation failure excluded as above).
+NO_PANIC += ["std::option::Option::replace", "std::option::Option::insert", "std::option::Option::get_or_insert", "std::option::Option::get_or_insert_with",
+             "std::option::Option::as_deref", "std::option::Option::as_deref_mut", "std::option::Option::is_some_and", "std::option::Option::is_none_or",
+             "std::option::Option::map_or_else", "std::option::Option::or_else", "std::option::Option::and", "std::option::Option::flatten",
+             "std::option::Option::unzip", "std::option::Option::iter_mut", "std::option::Option::into_iter", "std::option::Option::as_slice",
+             "std::option::Option::take_if", "std::option::Option::inspect",
+             "std::result::Result::and_then", "std::result::Result::or_else", "std::result::Result::unwrap_or_else", "std::result::Result::unwrap_or_default",
+             "std::result::Result::map_or", "std::result::Result::map_or_else", "std::result::Result::as_ref", "std::result::Result::as_mut",
+             "std::result::Result::iter", "std::result::Result::err", "std::result::Result::and", "std::result::Result::or", "std::result::Result::is_ok_and",
+             "std::result::Result::is_err_and", "std::result::Result::inspect", "std::result::Result::inspect_err", "std::result::Result::copied", "std::result::Result::cloned",
+             "core::bool::then_some",
+             "std::vec::Vec::extend_from_slice", "std::vec::Vec::clear", "std::vec::Vec::truncate", "std::vec::Vec::capacity", "std::vec::Vec::iter_mut",
+             "std::vec::Vec::as_mut_slice", "std::vec::Vec::retain", "std::vec::Vec::dedup", "std::vec::Vec::reserve", "std::vec::Vec::shrink_to_fit",
+             "std::vec::Vec::contains", "std::vec::Vec::from", "std::vec::Vec::to_vec", "std::vec::from_elem", "std::vec::Vec::extend", "std::vec::Vec::get",
+             "std::vec::Vec::get_mut", "std::vec::Vec::first_mut", "std::vec::Vec::last_mut", "std::vec::Vec::resize", "std::vec::Vec::into_boxed_slice",
+             "core::slice::contains", "core::slice::to_vec", "core::slice::starts_with", "core::slice::ends_with", "core::slice::split_first",
+             "core::slice::split_last", "core::slice::get_mut", "core::slice::first_mut", "core::slice::last_mut", "core::slice::binary_search",
+             "core::slice::concat", "core::slice::iter::", "core::slice::chunks_exact::", "std::slice::Iter::", "std::slice::IterMut::", "std::slice::ChunksExact::",
+             "std::string::String::push", "std::string::String::from", "std::string::String::with_capacity", "std::string::String::clear",
+             "std::string::String::from_utf8", "std::string::String::from_utf8_lossy", "std::string::String::extend", "std::string::String::into_bytes",
+             "core::str::starts_with", "core::str::ends_with", "core::str::contains", "core::str::find", "core::str::chars", "core::str::bytes",
+             "core::str::trim", "core::str::to_owned", "core::str::to_string", "core::str::to_lowercase", "core::str::to_uppercase", "core::str::parse",
+             "core::str::split", "core::str::lines", "core::str::strip_prefix", "core::str::strip_suffix", "core::str::as_ptr", "core::str::eq_ignore_ascii_case",
+             "core::num::to_be", "core::num::from_be", "core::num::to_le", "core::num::from_le", "core::num::to_be_bytes", "core::num::to_ne_bytes",
+             "core::num::from_be_bytes", "core::num::from_ne_bytes", "core::num::leading_zeros", "core::num::trailing_zeros", "core::num::count_ones",
+             "core::num::count_zeros", "core::num::min", "core::num::max", "core::num::abs_diff", "core::num::overflowing_", "core::num::is_power_of_two",
+             "core::num::rotate_left", "core::num::rotate_right", "core::num::reverse_bits", "core::f32::to_bits", "core::f64::to_bits",
+             "core::char::is_", "core::char::to_ascii", "core::char::from_u32", "core::char::len_utf8", "core::char::methods::",
+             "std::mem::size_of", "std::mem::drop", "std::mem::forget", "std::mem::align_of", "std::mem::discriminant",
+             "std::iter::Iterator::map_while", "std::iter::Iterator::scan", "std::iter::Iterator::inspect", "std::iter::Iterator::partition",
+             "std::iter::Iterator::unzip", "std::iter::Iterator::try_fold", "std::iter::Iterator::try_for_each", "std::iter::Iterator::cycle",
+             "std::iter::Iterator::size_hint", "std::iter::Iterator::eq", "std::iter::Iterator::ne", "std::iter::Iterator::cmp",
+             "std::iter::Iterator::max_by_key", "std::iter::Iterator::min_by_key", "std::iter::Iterator::max_by", "std::iter::Iterator::min_by",
+             "std::iter::repeat", "std::iter::from_fn", "std::iter::successors", "std::iter::FromIterator::from_iter",
+             "std::iter::adapters::", "core::iter::adapters::", "core::iter::traits::", "std::iter::range::", "core::ops::range::", "std::ops::Range::",
+             "std::ops::RangeInclusive::", "std::ops::RangeBounds::", "std::ops::Not::not", "std::ops::BitOr::bitor", "std::ops::BitAnd::bitand",
+             "std::ops::BitXor::bitxor", "std::ops::BitOrAssign::", "std::ops::BitAndAssign::", "std::ops::BitXorAssign::",
+             "std::collections::HashMap::default", "std::collections::HashMap::with_capacity", "std::collections::HashMap::get_mut",
+             "std::collections::HashMap::remove", "std::collections::HashMap::entry", "std::collections::HashMap::len", "std::collections::HashMap::is_empty",
+             "std::collections::HashMap::iter", "std::collections::HashMap::keys", "std::collections::HashMap::values", "std::collections::HashMap::clear",
+             "std::collections::HashSet::", "std::collections::BTreeMap::", "std::collections::BTreeSet::", "std::collections::VecDeque::new",
+             "std::borrow::Cow::", "std::borrow::Borrow::borrow", "std::borrow::BorrowMut::borrow_mut", "std::convert::AsMut::as_mut", "std::convert::TryFrom::try_from",
+             "std::convert::identity", "std::rc::Rc::new", "std::rc::Rc::clone", "std::sync::Arc::new", "std::boxed::Box::from", "std::boxed::Box::into_raw",
+             "std::error::Error::", "std::any::Any::type_id", "std::hash::Hasher::", "std::hash::BuildHasher::"]
 
 # Callees whose behaviour is supplied by the caller (the properties say "any well-behaved consumer" / argument types).
 CALLER_SUPPLIED = ["std::convert::AsRef::as_ref", "std::ops::Fn::call", "std::ops::FnMut::call_mut", "std::ops::FnOnce::call_once",
